@@ -177,6 +177,12 @@ pub trait ExDrawTarget: embedded_graphics_core::geometry::Dimensions {
 /// `Result::and` evaluates its argument eagerly (it is an ordinary call) and keeps the first error
 pub assume_specification<T, E, U> [Result::<T, E>::and] (a: Result<T, E>, b: Result<U, E>) -> (r: Result<U, E>)
     ensures r == (match a { Ok(_) => b, Err(e) => Err::<U, E>(e) });
+pub assume_specification [u16::abs_diff] (a: u16, b: u16) -> (r: u16)
+    ensures r as int == (if a >= b { a - b } else { b - a });
+pub assume_specification [u32::abs_diff] (a: u32, b: u32) -> (r: u32)
+    ensures r as int == (if a >= b { a - b } else { b - a });
+pub assume_specification [i32::unsigned_abs] (a: i32) -> (r: u32)
+    ensures r as int == (if a >= 0 { a as int } else { -(a as int) });
 pub assume_specification [i32::abs_diff] (a: i32, b: i32) -> (r: u32)
     ensures r as int == (if a >= b { a - b } else { b - a });
 /// R24: `n.try_into().unwrap()` for u32 -> usize; cannot fail where usize has at least 32 bits (here: 64, `global size_of usize == 8`)
